@@ -209,3 +209,114 @@ VARIANTS += [
       find='\t\tif err != nil {\n\t\t\treturn nil, CertificateError{InnerError: err, Msg: fmt.Sprintf("failed to read the trusted certificate %s in trust store %s of type %s", certFileName, namedStore, storeType)}\n\t\t}',
       replace='\t\tif err != nil {\n\t\t\tbreak\n\t\t}'),
 ]
+
+
+# ---- third pass ------------------------------------------------------------------------------------------------------------
+# class: PARAMETER OBJECT — the store identity (type, name) travels as the fields of an unexported struct, by value, by pointer,
+# as a method receiver or captured by a closure, instead of as two loose arguments
+E_ID = 'type storeID struct {\n\tstoreType Type\n\tname      string\n}\n\n'
+def sid(s):
+    return s.replace('storeType', 'store.storeType').replace('namedStore', 'store.name')
+def param_object(build='\tstore := storeID{storeType: storeType, name: namedStore}\n', ptr=False, decl=E_ID, entry_recv='store', after_locate='', locate_pre='',
+                 locate_arg='store', entry_call=None):
+    star = '*' if ptr else ''
+    drv = SIG + build + '\tstorePath, err := trustStore.locate(' + locate_arg + ')\n\tif err != nil {\n\t\treturn nil, err\n\t}\n' + after_locate + E_READDIR
+    drv += accumulate(entry_call or (entry_recv + '.readEntry(storePath, entry)'))
+    loc = ('func (trustStore *x509TrustStore) locate(store %sstoreID) (string, error) {\n' % star) + locate_pre
+    loc += sid(E_TYPE % '""' + E_NAME % '""' + E_SYS % ('trustStore', '""') + E_LSTAT.replace('return nil,', 'return "",') + E_MODE.replace('return nil,', 'return "",')) + '\treturn storePath, nil\n}\n\n'
+    ent = ('func (store %sstoreID) readEntry(storePath string, entry fs.DirEntry) ([]*x509.Certificate, error) {\n' % star) + sid(E_ENTRY + E_TSA_CALL) + '\treturn certs, nil\n}\n\n'
+    return drv + decl + loc + ent + F_ROOTS % 'certs'
+# the object captured by a per-entry closure
+def param_object_closure(build='\tstore := storeID{storeType: storeType, name: namedStore}\n', late=''):
+    drv = SIG + build + '\tstorePath, err := trustStore.locate(store)\n\tif err != nil {\n\t\treturn nil, err\n\t}\n' + E_READDIR
+    drv += '\tloadEntry := func(entry fs.DirEntry) ([]*x509.Certificate, error) {\n' + indent(sid(E_ENTRY + E_TSA_INLINE)) + '\t\treturn certs, nil\n\t}\n' + late
+    drv += accumulate('loadEntry(entry)')
+    loc = 'func (trustStore *x509TrustStore) locate(store storeID) (string, error) {\n'
+    loc += sid(E_TYPE % '""' + E_NAME % '""' + E_SYS % ('trustStore', '""') + E_LSTAT.replace('return nil,', 'return "",') + E_MODE.replace('return nil,', 'return "",')) + '\treturn storePath, nil\n}\n\n'
+    return drv + E_ID + loc
+VARIANTS += [
+ whole('benign-param-object-by-value', 'silent', param_object()),
+ whole('benign-param-object-by-pointer', 'silent', param_object(build='\tstore := &storeID{storeType: storeType, name: namedStore}\n', ptr=True)),
+ whole('benign-param-object-positional-other-order', 'silent', param_object(build='\tstore := storeID{namedStore, storeType}\n', decl='type storeID struct {\n\tname      string\n\tstoreType Type\n}\n\n')),
+ whole('benign-param-object-field-assignments', 'silent', param_object(build='\tvar store storeID\n\tstore.name = namedStore\n\tstore.storeType = storeType\n')),
+ whole('benign-param-object-fields-read-by-driver', 'silent', param_object(entry_call='loadStoreEntry(storePath, entry, store.storeType, store.name)') + f_entry()),
+ whole('benign-param-object-captured-by-closure', 'silent', param_object_closure()),
+ whole('param-object-fields-swapped', 'flagged(path/layout-arguments)', param_object(build='\tstore := storeID{storeType: Type(namedStore), name: string(storeType)}\n')),
+ whole('param-object-other-identity-for-entries', 'flagged(entry/tsa-roots)', param_object(build='\tstore := storeID{storeType: storeType, name: namedStore}\n\tother := storeID{storeType: TypeCA, name: namedStore}\n', entry_recv='other')),
+ whole('param-object-other-identity-located', 'flagged(gate/known-type)', param_object(build='\tstore := storeID{storeType: storeType, name: namedStore}\n\tother := storeID{storeType: TypeCA, name: namedStore}\n', locate_arg='other')),
+ whole('param-object-name-rewritten-by-helper', 'flagged(gate/safe-name)', param_object(build='\tstore := &storeID{storeType: storeType, name: namedStore}\n', ptr=True, locate_pre='\tstore.name = filepath.Base(store.name)\n')),
+ whole('param-object-name-set-after-use', 'flagged(gate/safe-name)', param_object(build='\tvar store storeID\n\tstore.storeType = storeType\n', after_locate='\tstore.name = namedStore\n')),
+ whole('param-object-type-rewritten-before-entries', 'flagged(entry/tsa-roots)', param_object(build='\tstore := &storeID{storeType: storeType, name: namedStore}\n', ptr=True, after_locate='\tstore.storeType = TypeCA\n')),
+ whole('param-object-closure-sees-later-type', 'flagged(entry/tsa-roots)', param_object_closure(late='\tstore.storeType = TypeCA\n')),
+]
+
+# class: the certificates of an entry are added ONE BY ONE (all or some branches of the iteration) instead of in bulk; the emptiness test
+# is a guard on the listing
+E_ROOT_ERR = 'return nil, CertificateError{InnerError: err, Msg: fmt.Sprintf("trusted certificate %s in trust store %s of type %s is invalid: %v", certFileName, namedStore, storeType, err.Error())}\n'
+def elementwise(head='\t\tfor _, cert := range certs {\n', root_if='if err := isRootCACertificate(cert); err != nil {', add='\t\t\tcertificates = append(certificates, cert)\n', skip='',
+                split='continue', guard=E_EMPTYDIR, init='\tcertificates := make([]*x509.Certificate, 0, len(entries))\n', tail='', outer='\tfor i := range entries {\n\t\tentry := entries[i]\n'):
+    drv = SIG + E_TYPE % 'nil' + E_NAME % 'nil' + E_SYS % ('trustStore', 'nil') + E_LSTAT + E_MODE + E_READDIR + guard
+    drv += '\trequireRootCA := storeType == TypeTSA\n' + init + outer + indent(E_ENTRY)
+    inner = head + skip + '\t\t\t' + root_if + '\n\t\t\t\t' + E_ROOT_ERR + '\t\t\t}\n' + add + '\t\t}\n'
+    if split == 'continue':
+        drv += '\t\tif !requireRootCA {\n\t\t\tcertificates = append(certificates, certs...)\n\t\t\tcontinue\n\t\t}\n' + inner
+    elif split == 'else':
+        drv += '\t\tif !requireRootCA {\n\t\t\tcertificates = append(certificates, certs...)\n\t\t} else {\n' + indent(inner) + '\t\t}\n'
+    else:  # every store adds one by one; the tsa test sits inside the loop over the certificates
+        drv += head + skip + '\t\t\tif requireRootCA {\n\t\t\t\t' + root_if + '\n\t\t\t\t\t' + E_ROOT_ERR + '\t\t\t\t}\n\t\t\t}\n' + add + '\t\t}\n'
+    return drv + '\t}\n' + tail + '\treturn certificates, nil\n}\n\n'
+PINNED = (T, HOOK, 'var pinnedRoots []*x509.Certificate\n\n' + HOOK)
+VARIANTS += [
+ whole('benign-elementwise-tsa-branch', 'silent', elementwise()),
+ whole('benign-elementwise-if-else', 'silent', elementwise(split='else')),
+ whole('benign-elementwise-always', 'silent', elementwise(split='always')),
+ whole('benign-elementwise-index-loop', 'silent', elementwise(head='\t\tfor j := 0; j < len(certs); j++ {\n\t\t\tcert := certs[j]\n')),
+ whole('benign-elementwise-result-tested', 'silent', elementwise(split='always', guard='', init='\tvar certificates []*x509.Certificate\n', tail=E_EMPTYRES, outer='\tfor _, entry := range entries {\n')),
+ whole('elementwise-skips-some', 'flagged(exact-set/every-entry-added)', elementwise(skip='\t\t\tif cert.IsCA && len(certs) > 1 {\n\t\t\t\tcontinue\n\t\t\t}\n')),
+ whole('elementwise-skips-some-empty-result', 'flagged(gate/non-empty)', elementwise(skip='\t\t\tif cert.IsCA && len(certs) > 1 {\n\t\t\t\tcontinue\n\t\t\t}\n')),
+ whole('elementwise-from-second', 'flagged(gate/non-empty)', elementwise(head='\t\tfor j := 1; j < len(certs); j++ {\n\t\t\tcert := certs[j]\n')),
+ whole('elementwise-every-other', 'flagged(exact-set/every-entry-added)', elementwise(head='\t\tfor j := 0; j < len(certs); j += 2 {\n\t\t\tcert := certs[j]\n')),
+ whole('elementwise-tail-only', 'flagged(exact-set/every-entry-added)', elementwise(head='\t\tfor _, cert := range certs[1:] {\n')),
+ whole('elementwise-first-then-break', 'flagged(exact-set/every-entry-added)', elementwise(add='\t\t\tcertificates = append(certificates, cert)\n\t\t\tbreak\n')),
+ whole('elementwise-always-first-element', 'flagged(exact-set/every-entry-added)', elementwise(add='\t\t\tcertificates = append(certificates, certs[0])\n')),
+ whole('elementwise-restarts-from-empty', 'flagged(exact-set/every-entry-added)', elementwise(add='\t\t\tcertificates = append(certificates[:0], cert)\n')),
+ whole('elementwise-foreign-element', 'flagged(exact-set/appended-only-from-files)', elementwise(add='\t\t\tcertificates = append(certificates, cert, pinnedRoots[0])\n'), edits=[PINNED]),
+ whole('elementwise-root-check-weakened', 'flagged(entry/tsa-roots)', elementwise(root_if='if err := isRootCACertificate(cert); err != nil && len(certs) == 1 {')),
+ whole('elementwise-always-root-check-weakened', 'flagged(entry/tsa-roots)', elementwise(split='always', root_if='if err := isRootCACertificate(cert); err != nil && len(certs) == 1 {')),
+ dict(name='entry-not-added', file=T, expect='flagged(exact-set/every-entry-added)',
+      find='\t\tcertificates = append(certificates, certs...)\n', replace='\t\tif len(certs) > 1 {\n\t\t\tcontinue\n\t\t}\n\t\tcertificates = append(certificates, certs...)\n'),
+]
+
+# the small shapes of the same refactoring: the type validator inlined with the standard slices.Contains, the two argument checks as one switch
+STD_SLICES = [(T, '\t"github.com/notaryproject/notation-go/internal/slices"\n', ''), (T, '\t"path/filepath"\n', '\t"path/filepath"\n\t"slices"\n'),
+              (T, '// isValidStoreType checks if storeType is supported\nfunc isValidStoreType(storeType Type) bool {\n\treturn slices.Contains(Types, storeType)\n}\n\n', '')]
+ARGS_OLD = '\tif !isValidStoreType(storeType) {\n\t\treturn nil, TrustStoreError{Msg: fmt.Sprintf("unsupported trust store type: %s", storeType)}\n\t}\n\tif !file.IsValidFileName(namedStore) {\n'
+def args_switch(first='!slices.Contains(Types, storeType)', mid=''):
+    return '\tswitch {\n\tcase ' + first + ':\n\t\treturn nil, TrustStoreError{Msg: fmt.Sprintf("unsupported trust store type: %s", storeType)}\n' + mid + '\tcase !file.IsValidFileName(namedStore):\n'
+VARIANTS += [
+ dict(name='benign-args-switch-std-contains', file=T, expect='silent', find=ARGS_OLD, replace=args_switch(), edits=STD_SLICES),
+ dict(name='args-switch-std-contains-own-list', file=T, expect='flagged(gate/known-type)', find=ARGS_OLD, replace=args_switch(first='!slices.Contains([]Type{TypeCA, TypeSigningAuthority, TypeTSA, Type(namedStore)}, storeType)'), edits=STD_SLICES),
+ dict(name='args-switch-name-case-shadowed', file=T, expect='flagged(gate/safe-name)', find=ARGS_OLD, replace=args_switch(mid='\tcase storeType == TypeCA:\n'), edits=STD_SLICES),
+]
+
+# class member: the parameter object comes from a constructor function (by value / by pointer), or also carries the file system (a loader object)
+CTOR_V = 'func newStoreID(t Type, n string) storeID {\n\treturn storeID{storeType: t, name: n}\n}\n\n'
+CTOR_P = 'func newStoreID(t Type, n string) *storeID {\n\treturn &storeID{storeType: t, name: n}\n}\n\n'
+def loader_object(build='\tl := &storeLoader{fs: trustStore.trustStorefs, storeType: storeType, name: namedStore}\n', late=''):
+    drv = SIG + build + '\tstorePath, err := l.locate()\n\tif err != nil {\n\t\treturn nil, err\n\t}\n' + late + E_READDIR
+    drv += accumulate('l.readEntry(storePath, entry)')
+    decl = 'type storeLoader struct {\n\tfs        dir.SysFS\n\tstoreType Type\n\tname      string\n}\n\n'
+    body = E_TYPE % '""' + E_NAME % '""' + E_SYS % ('l', '""') + E_LSTAT.replace('return nil,', 'return "",') + E_MODE.replace('return nil,', 'return "",')
+    loc = 'func (l *storeLoader) locate() (string, error) {\n' + body.replace('l.trustStorefs', 'l.fs').replace('storeType', 'l.storeType').replace('namedStore', 'l.name') + '\treturn storePath, nil\n}\n\n'
+    ent = 'func (l *storeLoader) readEntry(storePath string, entry fs.DirEntry) ([]*x509.Certificate, error) {\n' + (E_ENTRY + E_TSA_CALL).replace('storeType', 'l.storeType').replace('namedStore', 'l.name') + '\treturn certs, nil\n}\n\n'
+    return drv + decl + loc + ent + F_ROOTS % 'certs'
+VARIANTS += [
+ whole('benign-param-object-constructor-value', 'silent', param_object(build='\tstore := newStoreID(storeType, namedStore)\n', decl=E_ID + CTOR_V)),
+ whole('benign-param-object-constructor-pointer', 'silent', param_object(build='\tstore := newStoreID(storeType, namedStore)\n', ptr=True, decl=E_ID + CTOR_P)),
+ whole('benign-loader-object', 'silent', loader_object()),
+ whole('param-object-constructor-swaps', 'flagged(path/layout-arguments)', param_object(build='\tstore := newStoreID(storeType, namedStore)\n', decl=E_ID + CTOR_V.replace('storeType: t, name: n', 'storeType: Type(n), name: string(t)'))),
+ whole('param-object-constructor-arguments-swapped', 'flagged(gate/known-type)', param_object(build='\tstore := newStoreID(Type(namedStore), string(storeType))\n', decl=E_ID + CTOR_V)),
+ whole('param-object-constructed-then-rewritten', 'flagged(entry/tsa-roots)', param_object(build='\tstore := newStoreID(storeType, namedStore)\n', ptr=True, decl=E_ID + CTOR_P, after_locate='\tstore.storeType = TypeCA\n')),
+ whole('loader-object-type-rewritten', 'flagged(entry/tsa-roots)', loader_object(late='\tl.storeType = TypeCA\n')),
+ whole('loader-object-other-name', 'flagged(gate/safe-name)', loader_object(build='\tl := &storeLoader{fs: trustStore.trustStorefs, storeType: storeType, name: filepath.Base(namedStore)}\n')),
+]
